@@ -204,7 +204,52 @@ pub fn check_analysis(b: &Bound, formulas: &[String]) -> Option<String> {
     }
 }
 
+/// A set whose serialised BDD is large (about 2^13 nodes, > 100 KB of text) must round-trip too.
+pub fn check_large() -> Result<Option<String>, String> {
+    use biodivine_lib_param_bn::biodivine_std::traits::Set;
+    let big = crate::bigmodels::load("synthetic:pairs13", 1)?;
+    let g = &big.graph;
+    let vars: Vec<_> = g.variables().collect();
+    let mut set = g.mk_empty_colored_vertices();
+    for i in 0..13 {
+        set = set.union(&g.fix_network_variable(vars[i], true).intersect(&g.fix_network_variable(vars[13 + i], true)));
+    }
+    let nodes = set.as_bdd().size();
+    if nodes < 8000 {
+        return Err(format!("large-set construction only has {nodes} nodes"));
+    }
+    let dir = tempfile::tempdir().map_err(|e| e.to_string())?;
+    let path = dir.path().join("big.zip");
+    let path_s = path.to_str().unwrap().to_string();
+    let compl = g.mk_unit_colored_vertices().minus(&set);
+    let written: HashMap<String, GraphColoredVertices> = HashMap::from([("many".to_string(), set.clone()), ("unit".to_string(), g.mk_unit_colored_vertices()), ("complement".to_string(), compl)]);
+    let r = guarded(AssertUnwindSafe(|| -> Option<String> {
+        if let Err(e) = build_result_archive(written.clone(), &path_s, big.bn.to_string().as_str(), vec!["True".to_string()]) {
+            return Some(format!("build_result_archive fails on a large set: {e}"));
+        }
+        let loaded = match load_bdd_bundle(&path_s, g.symbolic_context()) {
+            Ok(l) => l,
+            Err(e) => return Some(format!("load_bdd_bundle fails on a large set: {e}")),
+        };
+        for (l, w) in &written {
+            match loaded.get(l) {
+                Some(s) if s.as_bdd() == w.as_bdd() => {}
+                Some(s) => return Some(format!("large set `{l}` ({} BDD nodes written) reloads as a different set ({} nodes)", w.as_bdd().size(), s.as_bdd().size())),
+                None => return Some(format!("large set `{l}` missing after reload")),
+            }
+        }
+        None
+    }));
+    match r {
+        Ok(v) => Ok(v),
+        Err(p) => Ok(Some(format!("panic while round-tripping a large set: {p}"))),
+    }
+}
+
 pub fn replay(case: &Value) -> Option<String> {
+    if case.get("large").is_some() {
+        return check_large().ok().flatten();
+    }
     let spec = serde_json::from_value(case["net"].clone()).ok()?;
     let b = Bound::new("replay", &spec, 0).ok()?;
     if let Some(fs) = case.get("analysis") {
@@ -253,6 +298,7 @@ pub fn run(tier: &str) -> Result<Report, String> {
             vec![("formula-0".into(), unit.clone()), ("a".into(), fam_sets[0].clone())],
             vec![("a".into(), fam_sets[0].clone()), ("x_1".into(), fam_sets[1].clone()), ("A.b".into(), fam_sets[2].clone()), ("formula-0".into(), results.first().cloned().unwrap_or(empty.clone()))],
             vec![("run.2.fixed".into(), fam_sets[1].clone()), ("dom 1".into(), fam_sets[0].clone()), ("x-y".into(), unit.clone()), ("é_2".into(), fam_sets[2].clone()), ("BDD".into(), empty.clone()), ("a.bdd".into(), fam_sets[0].clone())],
+            vec![("p".into(), fam_sets[0].clone()), ("zz/p".into(), fam_sets[1].clone()), ("0/p".into(), fam_sets[2].clone()), ("dir/sub/q".into(), unit.clone())],
             fam_sets.iter().enumerate().map(|(i, s)| (format!("s{i}"), s.clone())).chain(results.iter().enumerate().map(|(i, s)| (format!("formula-{i}"), s.clone()))).collect(),
         ];
         for fmt in ["aeon", "aeon-reversed", "sbml", "bnet"] {
@@ -288,6 +334,12 @@ pub fn run(tier: &str) -> Result<Report, String> {
     rep.set("round_trip_cases", json!(cases.len()));
     rep.set("network_format_pairs_not_expressible", json!(not_applicable));
     rep.violations.extend(res.into_iter().flatten().take(60));
+    // a large set (serialised BDD > 100 KB)
+    rep.evaluations += 1;
+    if let Some(w) = check_large()? {
+        rep.violations.push(Violation { case: json!({"kind": "archive", "large": true, "net": nets[0].spec}), what: w, size: 1 });
+    }
+    rep.set("large_set_round_trip", json!("OR_i (a_i & b_i) over 13 pairs of a 26-variable network (about 2^13 BDD nodes), its complement and the unit set"));
     // analysis archives: entry formula-i <-> line i
     let alists: Vec<Vec<String>> = vec![
         vec!["EF a".into()],
@@ -304,6 +356,6 @@ pub fn run(tier: &str) -> Result<Report, String> {
         }
     }
     rep.sample(json!({"network": "con2", "format": "sbml", "k": 2, "labels": ["a", "x_1", "A.b", "formula-0"], "formulae_lines": 3}));
-    rep.rule = format!("networks {which:?} x input format (aeon, aeon with reversed line order, sbml, bnet where the format reproduces the network exactly) x k in {ks:?} x 6 label->set maps (empty map, empty set, unit set, colour-dependent/empty-for-some-colours/colour-disjoint family sets, raw results; labels formula-0, a, x_1, A.b, run.2.fixed, 'dom 1', x-y, é_2, BDD, a.bdd, s0..) x 4 formula lists (0-3 lines): build_result_archive -> independent unzip (entry list exact, formulae.txt lines) -> model.aeon re-parsed, symbolic context compared by variable names -> load_bdd_bundle -> every set compared point-wise on all (state, valid colour) pairs and as BDD -> reloaded sets used as wild-card/domain context of three extended formulae; plus analyse_formulae archives: entry formula-i equals the result of line i. distinct_nontrivial = round-trip cases with at least one set");
+    rep.rule = format!("networks {which:?} x input format (aeon, aeon with reversed line order, sbml, bnet where the format reproduces the network exactly) x k in {ks:?} x 7 label->set maps (empty map, empty set, unit set, colour-dependent/empty-for-some-colours/colour-disjoint family sets, raw results; labels formula-0, a, x_1, A.b, run.2.fixed, 'dom 1', x-y, é_2, BDD, a.bdd, nested labels zz/p 0/p dir/sub/q next to p, s0..) x 4 formula lists (0-3 lines): build_result_archive -> independent unzip (entry list exact, formulae.txt lines) -> model.aeon re-parsed, symbolic context compared by variable names -> load_bdd_bundle -> every set compared point-wise on all (state, valid colour) pairs and as BDD -> reloaded sets used as wild-card/domain context of three extended formulae; plus analyse_formulae archives: entry formula-i equals the result of line i. distinct_nontrivial = round-trip cases with at least one set");
     Ok(rep)
 }
